@@ -99,7 +99,7 @@ func formTokenMatcher(delims []string) *regexp.Regexp {
 	}
 
 	tokenMatcher := regexp.MustCompile(
-		fmt.Sprintf(`%s-?\s*(.+?)\s*-?%s|%s-?\s*(\w+)(?:\s+((?:%v)+?))?\s*-?%s`,
+		fmt.Sprintf(`%s-?\s*((?s:.+?))\s*-?%s|%s-?\s*(\w+)(?:\s+((?:%v)+?))?\s*-?%s`,
 			// QuoteMeta will escape any of these that are regex commands
 			regexp.QuoteMeta(delims[0]), regexp.QuoteMeta(delims[1]),
 			regexp.QuoteMeta(delims[2]), strings.Join(exclusion, "|"), regexp.QuoteMeta(delims[3]),
